@@ -18,6 +18,8 @@ type c02Case struct {
 	T      []int // nil = no ties
 	// Us: the query points; empty = full half-integer grid from -1 to N1*N2+1
 	Us []float64
+	// noGuard: T is passed as it is (it is a row of a caller-owned flat array)
+	noGuard bool
 }
 
 func init() {
@@ -47,6 +49,33 @@ func c02Judge(w *mon.W, c c02Case, full bool) {
 		}
 	}
 	tab := uCache.Get(refT, N1)
+	// the tie vector handed to the library sits in the middle of a larger
+	// array, with canaries before it and in its spare capacity (more than
+	// twice its length), and is compared after the calls
+	var tbuf []int
+	var tcopy []int
+	if T != nil && !c.noGuard {
+		tcopy = append([]int(nil), T...)
+		pre := len(T) + 2
+		tbuf = make([]int, pre+len(T)+2*len(T)+3)
+		for i := range tbuf {
+			tbuf[i] = -7000 - i
+		}
+		copy(tbuf[pre:], T)
+		T = tbuf[pre : pre+len(T)]
+		defer func() {
+			for i, v := range tbuf {
+				want := -7000 - i
+				if i >= pre && i < pre+len(tcopy) {
+					want = tcopy[i-pre]
+				}
+				if v != want {
+					w.Violate("T-modified", fmt.Sprintf("UDist{%d,%d,%v}: the library wrote %d at offset %d relative to the caller's tie vector (inside it, or into the memory before it / its spare capacity)", N1, N2, tcopy, v, i-pre), c02Case{N1: N1, N2: N2, T: tcopy, Us: c.Us})
+					break
+				}
+			}
+		}()
+	}
 	d := stats.UDist{N1: N1, N2: N2, T: T}
 	dm := stats.UDist{N1: N2, N2: N1, T: T}
 	max := float64(N1 * N2)
@@ -82,7 +111,7 @@ func c02Judge(w *mon.W, c c02Case, full bool) {
 		w.Hit("far-and-near-jump-points")
 	}
 	bad := func(kind, msg string, u float64) {
-		w.Violate(kind, msg, c02Case{N1, N2, T, []float64{u}})
+		w.Violate(kind, msg, c02Case{N1: N1, N2: N2, T: append([]int(nil), T...), Us: []float64{u}})
 	}
 	prev, prevU := math.Inf(-1), math.Inf(-1)
 	sumPMF := 0.0
@@ -110,10 +139,9 @@ func c02Judge(w *mon.W, c c02Case, full bool) {
 		// relative to the value: the lower tail is summed directly and the
 		// tied counts are exact integers, so tiny masses must be right to
 		// rounding, not merely to 1e-9 absolute
+		// (tied counts go through Choose = exp(lgamma) above n = 20: about
+		// 1e-13 relative, far inside 1e-9 relative, in both tails)
 		floor := 1e-300
-		if ties {
-			floor = 1e-13 // tied counts go through Choose = exp(lgamma) above n = 20
-		}
 		if !w.Err("CDF", math.Abs(got-want), 1e-9*want+floor) {
 			bad("CDF", fmt.Sprintf("UDist{%d,%d,%v}.CDF(%v)=%.12g, exact %.12g", N1, N2, T, u, got, want), u)
 		}
@@ -154,7 +182,15 @@ func c02Judge(w *mon.W, c c02Case, full bool) {
 			bad("panic-PMF", fmt.Sprintf("UDist{%d,%d,%v}.PMF(%v) panicked: %v", N1, N2, T, u, v), u)
 			continue
 		}
-		if !w.Err("PMF", math.Abs(pm-tab.PMF2(twoU)), 1e-9*tab.PMF2(twoU)+floor) {
+		// a tied mass is obtained as a difference of cumulative counts: its
+		// rounding noise scales with the cumulative probability there (1e-12
+		// of it), not with 1 — in the lower tail tiny masses must be right
+		pfloor := floor
+		if ties {
+			pfloor = 1e-12*want + 1e-300
+		}
+		w.HitIf(ties && attainable && tab.PMF2(twoU) < 1e-13, "tied-attainable-mass-below-1e-13")
+		if !w.Err("PMF", math.Abs(pm-tab.PMF2(twoU)), 1e-9*tab.PMF2(twoU)+pfloor) {
 			bad("PMF", fmt.Sprintf("UDist{%d,%d,%v}.PMF(%v)=%.12g, exact %.12g (attainable=%v)", N1, N2, T, u, pm, tab.PMF2(twoU), attainable), u)
 		}
 		if onGrid {
@@ -168,19 +204,23 @@ func c02Judge(w *mon.W, c c02Case, full bool) {
 				bad("panic-PMF", fmt.Sprintf("UDist{%d,%d,%v}.PMF(%v) panicked: %v", N2, N1, T, max-u, v), u)
 				continue
 			}
-			if math.Abs(pm-pm2) > 1e-9*math.Max(pm, pm2)+floor {
+			mfloor := floor
+			if ties {
+				mfloor = 1e-13
+			}
+			if math.Abs(pm-pm2) > 1e-9*math.Max(pm, pm2)+mfloor {
 				bad("mirror", fmt.Sprintf("PMF_{%d,%d,%v}(%v)=%.12g but PMF_{%d,%d}(%v)=%.12g", N1, N2, T, u, pm, N2, N1, max-u, pm2), u)
 			}
 		}
 	}
 	if grid {
 		if math.Abs(sumPMF-1) > 1e-9 {
-			w.Violate("mass", fmt.Sprintf("UDist{%d,%d,%v}: masses sum to %.12g", N1, N2, T, sumPMF), c02Case{N1, N2, T, nil})
+			w.Violate("mass", fmt.Sprintf("UDist{%d,%d,%v}: masses sum to %.12g", N1, N2, T, sumPMF), c02Case{N1: N1, N2: N2, T: T})
 		}
 		lo, hi := d.Bounds()
 		w.Eval("UDist.Bounds")
 		if lo != 0 || hi != max || d.Step() != 0.5 {
-			w.Violate("bounds", fmt.Sprintf("UDist{%d,%d,%v}: Bounds=(%v,%v) Step=%v", N1, N2, T, lo, hi, d.Step()), c02Case{N1, N2, T, nil})
+			w.Violate("bounds", fmt.Sprintf("UDist{%d,%d,%v}: Bounds=(%v,%v) Step=%v", N1, N2, T, lo, hi, d.Step()), c02Case{N1: N1, N2: N2, T: T})
 		}
 	}
 	if w.WantSample() {
@@ -191,7 +231,7 @@ func c02Judge(w *mon.W, c c02Case, full bool) {
 func c02Run(r *mon.Run) {
 	r.Rule("every (N1,N2,T) with N1+N2<=10 (thorough 14), T = nil, all-ones, every composition with >=2 parts; u on the half-integer grid -1..N1N2+1 plus 8 random reals; random large distributions up to 50+50 untied / 25+25 tied on 40 sampled grid points. Non-trivial: hits a class (K=2, leading tie group, tied non-palindromic, nil/all-ones T, feasibility edges); distinct by hash of (N1,N2,T,points).")
 	r.Assume("reference: subset enumeration (N<=14), 128-bit generating-function DP above, cross-checked at start-up")
-	r.Gate("recycled-T-buffer", "far-and-near-jump-points", "K=2", "leading-tie-group", "untied-u-above-centre", "untied-u-below-centre", "tied-u-below-feasible-min", "T=nil", "T=all-ones", "large-untied", "large-tied", "tied-n-reaches-25", "permuted-tie-vector-same-sizes", "corner-of-the-stated-range", "U-test-limit-variables-changed", "three-groups-large")
+	r.Gate("recycled-T-buffer", "far-and-near-jump-points", "K=2", "leading-tie-group", "untied-u-above-centre", "untied-u-below-centre", "tied-u-below-feasible-min", "T=nil", "T=all-ones", "large-untied", "large-tied", "tied-n-reaches-25", "permuted-tie-vector-same-sizes", "corner-of-the-stated-range", "U-test-limit-variables-changed", "three-groups-large", "tie-vectors-as-rows-of-one-array", "tied-attainable-mass-below-1e-13")
 	if err := ref.USelfTest(r.Pick(8, 9)); err != nil {
 		r.Inconclusive("reference self-test failed: " + err.Error())
 		return
@@ -362,6 +402,44 @@ func c02Run(r *mon.Run) {
 		c02Judge(w, c, false)
 	})
 
+	// tie vectors kept as rows of one flat array (each row's capacity runs
+	// over the following rows): every row judged in turn, the whole array
+	// compared with a pristine copy after each
+	r.Parallel("flat-rows", r.Pick(300, 3000), func(w *mon.W, i int) {
+		rng := w.Rng
+		L, rows := rng.Range(2, 5), rng.Range(2, 5)
+		N := rng.Range(L+2, 14)
+		flat := make([]int, 0, L*rows)
+		for k := 0; k < rows; k++ {
+			// a random composition of N into L parts
+			cuts := rng.Perm(N - 1)[:L-1]
+			sortInts(cuts)
+			prev := 0
+			for _, cpt := range cuts {
+				flat = append(flat, cpt+1-prev)
+				prev = cpt + 1
+			}
+			flat = append(flat, N-prev)
+		}
+		pristine := append([]int(nil), flat...)
+		n1 := rng.Range(1, N-1)
+		w.Hit("tie-vectors-as-rows-of-one-array")
+		for pass := 0; pass < 2; pass++ {
+			for k := 0; k < rows; k++ {
+				row := flat[k*L : (k+1)*L]
+				max := n1 * (N - n1)
+				us := []float64{float64(rng.Intn(2*max+1)) / 2, float64(max), float64(max) / 2, float64(max - rng.Intn(max/2+1))}
+				c02Judge(w, c02Case{N1: n1, N2: N - n1, T: row, Us: us, noGuard: true}, false)
+				for j := range flat {
+					if flat[j] != pristine[j] {
+						w.Violate("T-modified", fmt.Sprintf("after UDist{%d,%d,T=row %d of %v}: the caller's array reads %v (a neighbouring row was overwritten)", n1, N-n1, k, pristine, flat), c02Case{N1: n1, N2: N - n1, T: append([]int(nil), pristine[k*L:(k+1)*L]...), Us: us})
+						return
+					}
+				}
+			}
+		}
+	})
+
 	// the corners of the stated range, whatever the seed
 	corners := []c02Case{{N1: 50, N2: 50}, {N1: 50, N2: 1}, {N1: 1, N2: 50}, {N1: 50, N2: 10}, {N1: 10, N2: 50}, {N1: 49, N2: 50}}
 	for _, sz := range [][2]int{{25, 25}, {25, 1}, {1, 25}, {24, 25}} {
@@ -409,6 +487,14 @@ func c02Run(r *mon.Run) {
 		})
 	}
 	stats.MannWhitneyExactLimit, stats.MannWhitneyTiesExactLimit = du, dt
+}
+
+func sortInts(xs []int) {
+	for i := 1; i < len(xs); i++ {
+		for j := i; j > 0 && xs[j] < xs[j-1]; j-- {
+			xs[j], xs[j-1] = xs[j-1], xs[j]
+		}
+	}
 }
 
 // c02Pairs is the tie vector 2,2,...,2(,1) of total n.
